@@ -70,7 +70,7 @@ def components(tier, disabled):
     q = tier == "quick"
     return {
         "lsig": {"strategy": semantic_program(profile="direct", disabled=disabled, mode="lsig"),
-                 "check": check, "examples": 1600 if q else 100000, "sample": lambda c, i: RCFG(c).text},
+                 "check": check, "examples": 1600 if q else 60000, "sample": lambda c, i: RCFG(c).text},
         "app": {"strategy": semantic_program(profile="direct", disabled=disabled, mode="app"),
-                "check": check, "examples": 1200 if q else 80000, "sample": lambda c, i: RCFG(c).text},
+                "check": check, "examples": 1200 if q else 40000, "sample": lambda c, i: RCFG(c).text},
     }
